@@ -138,6 +138,30 @@ func (o *signOracle) checkStores(round string, members []int) {
 					if len(e.Signature) == 0 {
 						continue
 					}
+					if len(b.Earlier) > 0 {
+						// the batch identifier was proposed more than once: a stored entry may
+						// still be the one of an earlier proposal, but the signature must be a
+						// valid signature of the payload it is stored next to, and that payload
+						// must be one that was proposed for this message
+						o.seen++
+						proposed := false
+						for _, gen := range append(append([][]ExpMsg{}, b.Earlier...), b.Msgs) {
+							for _, em := range gen {
+								if em.MessageID == mid && bytes.Equal(em.Payload, e.SrcPayload) {
+									proposed = true
+								}
+							}
+						}
+						if !proposed {
+							w.Fail(o.prop, "stored-payload-never-proposed", fmt.Sprintf("store of %s (entry by %s): message %q of batch %s is stored with a payload no proposal of that batch carried", n.Name, e.Username, mid, bid))
+							return
+						}
+						if err := VerifyETH(gk, e.SrcPayload, e.Signature); err != nil {
+							w.Fail(o.prop, "invalid-signature", fmt.Sprintf("store of %s (entry by %s): the signature stored for message %q of the re-proposed batch %s is not a signature of the payload stored next to it: %v", n.Name, e.Username, mid, bid, err))
+							return
+						}
+						continue
+					}
 					o.checkSig(gk, b, mid, e.Signature, fmt.Sprintf("store of %s (entry by %s)", n.Name, e.Username))
 					if w.Failed() {
 						return
@@ -331,6 +355,13 @@ func runSignScenario(w *World, tier string, prop string) (bool, interface{}) {
 			racer = perm[(indexOf(perm, proposer)+1+w.Tape.Choose(n-1, "racer"))%n]
 			c.L.PausedPoll[racer] = true
 		}
+		// C07 "every node that keeps polling": the proposer's own node stops polling
+		// right after its proposal is out (and is not among the signers); the nodes
+		// that do keep polling must end up with the signatures all the same
+		stalled := -1
+		if prop == "C07" && !fast[proposer] && racer != proposer && n-1 >= t && w.Tape.Bool(1, 2, "proposerStalls") {
+			stalled = proposer
+		}
 		d := genBatch(c, round, proposer, b, prev, maxBaked)
 		// the proposal must reach the board before we can name the batch
 		c.L.RunUntil(func() bool { return len(c.Tr.Order) > before }, 20*n)
@@ -369,8 +400,26 @@ func runSignScenario(w *World, tier string, prop string) (bool, interface{}) {
 			never[bi.BatchID] = slow
 		}
 		descs = append(descs, fmt.Sprintf("%s signers=%d rel=%d", d, k, relMode))
+		if po != nil && w.Tape.Bool(1, 2, "exportInFlight") {
+			// an export taken while this batch is in flight (some nodes have stored the
+			// proposal, nobody or not everybody has a signature yet)
+			c.L.RunUntil(func() bool { return false }, w.Tape.Choose(6*n, "inFlightSteps"))
+			po.checkExportLikeCLI(round, members, "batch in flight")
+			w.Stats.Probe("export-while-batch-in-flight")
+		}
+		polling := members
+		if stalled >= 0 {
+			c.L.PausedPoll[stalled] = true
+			w.Stats.Fault("proposer-node-stalled")
+			polling = nil
+			for _, i := range members {
+				if i != stalled {
+					polling = append(polling, i)
+				}
+			}
+		}
 		ok := c.L.RunUntil(func() bool {
-			return c.Tr.AllHaveBatch(bi, members) && c.AllInState(round, StIdle, members)
+			return c.Tr.AllHaveBatch(bi, polling) && c.AllInState(round, StIdle, polling)
 		}, stepCap)
 		if faulty >= 0 && !ok {
 			// a batch poisoned by a faulty contribution may never complete; later batches are
@@ -403,7 +452,14 @@ func runSignScenario(w *World, tier string, prop string) (bool, interface{}) {
 			// the random schedule ran into its step cap: judge only after a
 			// fault-free round-robin phase (bounded liveness, not luck)
 			c.L.Quiesce(12)
-			ok = c.Tr.AllHaveBatch(bi, members) && c.AllInState(round, StIdle, members)
+			ok = c.Tr.AllHaveBatch(bi, polling) && c.AllInState(round, StIdle, polling)
+		}
+		if stalled >= 0 {
+			if ok {
+				w.Stats.Probe("batch-completed-while-proposer-stalled")
+			}
+			d += "+proposer-stalled"
+			delete(c.L.PausedPoll, stalled) // it resumes and has to catch up as well
 		}
 		if !ok && len(bi.Msgs) > 0 && prop == "C07" && !w.Failed() {
 			w.Fail(prop, "batch-not-reconstructed", fmt.Sprintf("batch #%d (%s), correctly answered by %d >= t=%d participants, is not stored by every node / round not idle (states %v)", b, d, len(bi.Answered), t, states(c, round)))
@@ -462,6 +518,30 @@ func runSignScenario(w *World, tier string, prop string) (bool, interface{}) {
 			descs = append(descs, fmt.Sprintf("second round n=%d t=%d, shared payloads signed in both", len(members2), t2))
 		}
 	}
+	// C01 "or stores": a finished batch is proposed again under the same
+	// identifiers with other payloads and this time nobody answers: whatever the
+	// stores hold for it afterwards, a signature must belong to the payload next to it
+	if prop == "C01" && !w.Failed() && len(c.Tr.Order) > 0 && c.AllInState(round, StIdle, members) && w.Tape.Bool(1, 4, "reproposeUnanswered") {
+		var cand []*BatchInfo
+		for _, bid := range c.Tr.Order {
+			if b := c.Tr.Batches[bid]; b.Round == round && len(b.Answered) >= t && c.Tr.AllHaveBatch(b, members) {
+				cand = append(cand, b)
+			}
+		}
+		if len(cand) > 0 {
+			b := cand[w.Tape.Choose(len(cand), "reproposeWhich")]
+			all := map[int]bool{}
+			for _, i := range members {
+				all[i] = true
+			}
+			never[b.BatchID] = all
+			if c.ReproposeChanged(members[w.Tape.Choose(n, "reproposer")], b.Offset) {
+				w.Stats.Fault("batch-reproposed-under-same-identifiers")
+				c.L.RunUntil(func() bool { return false }, 10*n)
+				descs = append(descs, "re-proposed under the same ids, unanswered")
+			}
+		}
+	}
 	for _, op := range c.Ops {
 		op.Filter = func(o *types.Operation) bool { return !never[BatchOfOp(o)][op.Idx] }
 	}
@@ -490,6 +570,9 @@ func runSignScenario(w *World, tier string, prop string) (bool, interface{}) {
 	}
 	if po != nil && !w.Failed() {
 		po.checkStores(round, members)
+	}
+	if po != nil && !w.Failed() {
+		po.checkExportLikeCLI(round, members, "at the end")
 	}
 	w.Abstract[fmt.Sprintf("n%d-t%d", n, t)] = true
 	sample := map[string]interface{}{"n": n, "t": t, "batches": descs, "signatures_checked": so.seen, "board_len": w.Board.Len()}
